@@ -270,8 +270,14 @@ func stripName(r result) result {
 func explainDiff(ds *dataset, e *exprCase, mode string, start, lastStep, step int64, sv result, evalUp func(string) result) (bool, *explain) {
 	var first *explain
 	nchoices := 1
-	for choice := 0; choice < nchoices && choice < 64; choice++ {
-		ok, ex, nregex := explainWith(ds, e, mode, start, lastStep, step, sv, evalUp, choice)
+	for choice := 0; choice <= nchoices && choice <= 64; choice++ {
+		// the loosest rule (resets: additional zero points) is tried last, after every regex reading failed
+		allowResets := choice == nchoices || choice == 64
+		c := choice
+		if allowResets {
+			c = 0
+		}
+		ok, ex, nregex := explainWith(ds, e, mode, start, lastStep, step, sv, evalUp, c, allowResets)
 		if choice == 0 {
 			first = ex
 			for k := 0; k < nregex && k < 3; k++ {
@@ -285,7 +291,7 @@ func explainDiff(ds *dataset, e *exprCase, mode string, start, lastStep, step in
 	return false, first
 }
 
-func explainWith(ds *dataset, e *exprCase, mode string, start, lastStep, step int64, sv result, evalUp func(string) result, choice int) (bool, *explain, int) {
+func explainWith(ds *dataset, e *exprCase, mode string, start, lastStep, step int64, sv result, evalUp func(string) result, choice int, allowResets bool) (bool, *explain, int) {
 	ex := &explain{}
 	rewritten, rules, nregex, err := rewriteCurrent(e.Expr, ds, choice)
 	if err != nil {
@@ -315,15 +321,19 @@ func explainWith(ds *dataset, e *exprCase, mode string, start, lastStep, step in
 		return false, nil, nregex
 	}
 	if e.Form == "rangefn" && e.Fn == "rate" && e.RangeMs%1000 != 0 && e.RangeMs >= 1000 {
-		ex.Scale = (float64(e.RangeMs) / 1000) / math.Floor(float64(e.RangeMs)/1000)
-		up = scaleResult(up, ex.Scale)
-		ex.Rules = addRule(ex.Rules, fSubsec)
+		// only if the unscaled values do not already agree (the integer division is repaired in fixed trees)
+		k := (float64(e.RangeMs) / 1000) / math.Floor(float64(e.RangeMs)/1000)
+		if scaled := scaleResult(up, k); cmpResults(up, sv) != "" && cmpResults(scaled, sv) == "" {
+			ex.Scale = k
+			up = scaled
+			ex.Rules = addRule(ex.Rules, fSubsec)
+		}
 	}
 	if groupsByName(e.Expr) {
 		up = stripName(up)
 		ex.Rules = addRule(ex.Rules, fByName)
 	}
-	if strings.Contains(e.Expr, "resets(") && cmpResults(up, sv) != "" && extraZeros(up, sv) {
+	if allowResets && strings.Contains(e.Expr, "resets(") && cmpResults(up, sv) != "" && extraZeros(up, sv) {
 		ex.Rules = addRule(ex.Rules, fResetsZero)
 		return true, ex, nregex
 	}
